@@ -2,8 +2,8 @@ package main
 
 // genFormulas: T-slp — the straight-line field programs of
 //
-//	pkg/base/curves/impl/points/weierstrass.go   (Add Double Neg Equal IsZero SetZero SetAffine ToAffine setFractions)
-//	pkg/base/curves/impl/points/edwards.go       (Add Double Neg Equal IsZero SetZero ToAffine setFractions)
+//	pkg/base/curves/impl/points/weierstrass.go   (Add Double Neg Equal IsZero SetZero SetAffine ToAffine setFractions Sub)
+//	pkg/base/curves/impl/points/edwards.go       (Add Double Neg Equal IsZero SetZero ToAffine setFractions Sub)
 //	pkg/base/algebra/impl/fields/quadratic.go    (Add Sub Neg Double Mul Square)
 //	pkg/base/algebra/impl/fields/cubic.go        (Add Sub Neg Double Mul Square)
 //
@@ -695,6 +695,100 @@ func translateSLP(fset *token.FileSet, f *ast.File, k *slpKind, fname string) (s
 	return b.String(), hashText(src(fset, fd)), nil
 }
 
+// translateSub accepts exactly the shape
+//
+//	var t T[...]; t.Neg(rhs); p.Add(lhs, &t)
+//
+// (Sub = Add after Neg on a fresh temporary) and renders it with the already translated Neg and Add.
+func translateSub(fset *token.FileSet, f *ast.File, k *slpKind) (string, string, error) {
+	fd := findMethod(f, k.typ, "Sub")
+	if fd == nil {
+		return "", "", fmt.Errorf("%s.Sub: method not found", k.typ)
+	}
+	fail := func(n ast.Node, msg string) (string, string, error) {
+		return "", "", fmt.Errorf("%s.Sub: %s: %s: `%s`", k.typ, fset.Position(n.Pos()), msg, src(fset, n))
+	}
+	fields := structFields(f, k.typ)
+	if fd.Recv == nil || len(fd.Recv.List) != 1 || len(fd.Recv.List[0].Names) != 1 || fd.Type.Results != nil {
+		return fail(fd, "unexpected signature")
+	}
+	recv := fd.Recv.List[0].Names[0].Name
+	var pars []string
+	for _, p := range fd.Type.Params.List {
+		if typeName(p.Type) != k.typ {
+			return fail(p, "unexpected parameter type")
+		}
+		for _, n := range p.Names {
+			pars = append(pars, n.Name)
+		}
+	}
+	if len(pars) != 2 || len(fd.Body.List) != 3 {
+		return fail(fd, "expected two operands and three statements (var t; t.Neg(rhs); p.Add(lhs, &t))")
+	}
+	ds, ok := fd.Body.List[0].(*ast.DeclStmt)
+	if !ok {
+		return fail(fd.Body.List[0], "expected the declaration of the temporary")
+	}
+	gd, ok := ds.Decl.(*ast.GenDecl)
+	if !ok || gd.Tok != token.VAR || len(gd.Specs) != 1 {
+		return fail(ds, "expected one var declaration")
+	}
+	vs := gd.Specs[0].(*ast.ValueSpec)
+	if len(vs.Names) != 1 || len(vs.Values) != 0 || typeName(vs.Type) != k.typ {
+		return fail(ds, "expected an uninitialised temporary of the receiver's type")
+	}
+	tmp := vs.Names[0].Name
+	callOf := func(st ast.Stmt) (recvName, method string, args []ast.Expr, ok bool) {
+		es, ok1 := st.(*ast.ExprStmt)
+		if !ok1 {
+			return "", "", nil, false
+		}
+		c, ok2 := es.X.(*ast.CallExpr)
+		if !ok2 {
+			return "", "", nil, false
+		}
+		sel, ok3 := c.Fun.(*ast.SelectorExpr)
+		if !ok3 {
+			return "", "", nil, false
+		}
+		id, ok4 := sel.X.(*ast.Ident)
+		if !ok4 {
+			return "", "", nil, false
+		}
+		return id.Name, sel.Sel.Name, c.Args, true
+	}
+	r1, m1, a1, ok1 := callOf(fd.Body.List[1])
+	if !ok1 || r1 != tmp || m1 != "Neg" || len(a1) != 1 || src(fset, a1[0]) != pars[1] {
+		return fail(fd.Body.List[1], "expected "+tmp+".Neg("+pars[1]+")")
+	}
+	r2, m2, a2, ok2 := callOf(fd.Body.List[2])
+	if !ok2 || r2 != recv || m2 != "Add" || len(a2) != 2 || src(fset, a2[0]) != pars[0] || src(fset, a2[1]) != "&"+tmp {
+		return fail(fd.Body.List[2], "expected "+recv+".Add("+pars[0]+", &"+tmp+")")
+	}
+	var ps, negArgs, addL, tys, outs []string
+	for _, p := range pars {
+		for _, fl := range fields {
+			ps = append(ps, p+"_"+fl)
+		}
+	}
+	for _, fl := range fields {
+		negArgs = append(negArgs, pars[1]+"_"+fl)
+		addL = append(addL, pars[0]+"_"+fl)
+		tys = append(tys, "F")
+		outs = append(outs, "n_"+fl)
+	}
+	pat := outs[0]
+	for _, o := range outs[1:] {
+		pat = "(" + pat + ", " + o + ")"
+	}
+	var b strings.Builder
+	fmt.Fprintf(&b, "  (* %s.Sub — %s.Neg(%s); %s.Add(%s, &%s) *)\n", k.typ, tmp, pars[1], recv, pars[0], tmp)
+	fmt.Fprintf(&b, "  Definition %sSub (%s : F) : %s :=\n", k.prefix, strings.Join(ps, " "), strings.Join(tys, " * "))
+	fmt.Fprintf(&b, "    let '%s := %sNeg %s in\n", pat, k.prefix, strings.Join(negArgs, " "))
+	fmt.Fprintf(&b, "    %sAdd %s %s.\n\n", k.prefix, strings.Join(addL, " "), strings.Join(outs, " "))
+	return b.String(), hashText(src(fset, fd)), nil
+}
+
 func indexOf(xs []string, x string) int {
 	for i, y := range xs {
 		if x == y {
@@ -732,6 +826,14 @@ func genFormulas(repo string) (string, map[string]string, error) {
 			}
 			out.WriteString(def)
 			hashes[k.typ+"."+fn] = h
+		}
+		if k.prefix == "W_" || k.prefix == "E_" {
+			def, h, err := translateSub(fset, f, k)
+			if err != nil {
+				return "", nil, err
+			}
+			out.WriteString(def)
+			hashes[k.typ+".Sub"] = h
 		}
 		fmt.Fprintf(&out, "  End %s.\n\n", k.section)
 	}
